@@ -339,10 +339,12 @@ Proof.
   set (i := get_inst s o).
   destruct (inv_L _ _ _ _ H o Hl) as (Hlt & (B1 & B2 & B3) & Hor).
   pose proof (get_inst_hp _ _ _ _ o H) as (Hd & Hnl & Hex). fold i in Hd, Hnl, Hex, B3.
-  pose proof (NoDup_as_dict kvs) as Hnd.
-  set (kw := as_dict kvs) in *.
+  pose proof (NoDup_set_kw kvs) as Hnd.
+  set (kw := filter (fun cv : nat * val => is_col (fst cv)) (as_dict kvs)) in *.
   destruct (fold_set_val_fields kw i) as (Fd & Fp & Fk & Fi & Fe & Fo & Fc). cbn zeta in Fd, Fp, Fk, Fi, Fe, Fo, Fc.
+  unfold bind at 1. destruct (is_lazy (i_k i) && existsb _ kvs); [split; [exact H|apply ext_refl]|]. unfold ret at 1.
   unfold bind at 1. destruct (validate_all_run kw s) as [Ev|Ev]; rewrite Ev; [|split; [exact H|apply ext_refl]].
+  unfold bind at 1. destruct (existsb _ kvs); [split; [exact H|apply ext_refl]|]. unfold ret at 1.
   destruct (is_lazy (i_k i)) eqn:Hlz.
   - unfold upd_inst, modify. cbn [fst snd]. fold i. split; [|apply ext_upd; cbn; assumption].
     apply Inv_upd; try assumption; cbn; try assumption.
